@@ -103,6 +103,11 @@ func (c *UI) parseCommand(str string) (Command, []interface{}, error) {
 		return cmd, args, nil
 	}
 
+	if cmd.OptionalArgs == nil {
+		err := fmt.Errorf("too many args: command %q takes %d args", cmdStr, len(cmd.Args))
+		return Command{}, nil, err
+	}
+
 	vals, err := cmd.OptionalArgs(parts)
 	if err != nil {
 		return Command{}, nil, fmt.Errorf("cannot parse optional arguments: %w", err)
